@@ -153,6 +153,10 @@ Proof.
   - destruct fuel as [|fuel]; [lia|]. simpl. rewrite Hw, Hn, Hl. apply IH. lia.
 Qed.
 
+Lemma get_workdir_inherits' ds d k r fuel :
+  inherits ds d k r -> k <= fuel -> get_workdir fuel ds d = WOk r.
+Proof. intros H. exact (get_workdir_inherits ds d k r H fuel). Qed.
+
 Lemma inherits_of_chain ds d k e :
   reach ds d k e -> d_wraps e = None -> exists j r, j <= k /\ inherits ds d j r.
 Proof.
